@@ -83,8 +83,19 @@ def ipLoop : List Nat → List Nat → List Nat → MR
   | _ :: _, [], _ :: _ => .no          -- not reachable: the caller compares the lengths first
   | a :: as, c :: cs, m :: ms => if a &&& m ≠ c &&& m then .no else ipLoop as cs ms
 
+/-- the subtree address as `matchIPConstraint` compares it since `fix:` 3d20cbd: normalised to
+    its 4-octet form only when the mask has 4 octets (a subtree for IPv4 addresses) -/
+def IpNet.eff (n : IpNet) : List Nat := if n.mask.length = 4 then normalizeIP n.ip else n.ip
+
 /-- `matchIPConstraint` -/
 def matchIP (ip : List Nat) (n : IpNet) : MR :=
+  let a := normalizeIP ip
+  let c := n.eff
+  if a.length ≠ c.length then .no else ipLoop a c n.mask
+
+/-- historic: `matchIPConstraint` before 3d20cbd normalised every subtree address, so an
+    IPv4-mapped IPv6 subtree (16-octet mask) was compared as IPv4 under the first four mask octets -/
+def matchIP2021 (ip : List Nat) (n : IpNet) : MR :=
   let a := normalizeIP ip
   let c := normalizeIP n.ip
   if a.length ≠ c.length then .no else ipLoop a c n.mask
@@ -360,10 +371,10 @@ def authorityValidateF (ints roots : List Cert) (n : Names) : Verdict :=
 
   Subtree membership is the one of today's `crypto/x509` (go1.23), which is what relying parties
   run. Since 41cbd56 the engine's DNS, e-mail and URI matchers are the same functions
-  (`specMatchDomain`, `specParseMailbox`, `specMatchEmail`, `specMatchURI` above). One difference
-  is left: `matchIPConstraint` of crypto/x509 compares address families as encoded (4 against 4,
-  16 against 16 octets); the engine's copy first rewrites an IPv4-mapped IPv6 *subtree* to IPv4
-  and then reads the first four octets of its 16-octet mask (known finding F3). -/
+  (`specMatchDomain`, `specParseMailbox`, `specMatchEmail`, `specMatchURI` above).
+  `matchIPConstraint` of crypto/x509 compares address families as encoded (4 against 4, 16
+  against 16 octets); since 3d20cbd the engine's copy does the same on every `IPNet` whose mask
+  is as long as its address, which is every subtree `x509.ParseCertificate` produces. -/
 
 /-- membership of an iPAddress in a subtree as RFC 5280 §4.2.1.10 defines it: same address
     family (4 against 4 octets, 16 against 16), equal under the mask. No re-interpretation of
@@ -399,6 +410,49 @@ def specAccept (chain : List Level) (n : Names) : Bool := chain.all (levelAccept
     `for _, crt := range chain { if err := New(crt).Validate(...); err != nil { return err } }` -/
 def validatePerCert (chain : List Level) (n : Names) : Verdict :=
   firstBad (fun l => validate (New [l]) n) chain
+
+/-! ### the front ends (api/sign.go, api/renew.go, api/rekey.go, acme/order.go Finalize,
+    scep/authority.go SignCSR + scep/api): what a requester sees for the authority's verdict
+
+  Each front end hands the CSR / certificate to `Authority.SignWithContext` / `RenewContext` /
+  `Rekey` (source-derived table `frontEnds`) and turns the result into its protocol's answer. -/
+
+inductive Front where
+  | sign | renew | rekey | acme | scep
+  deriving Repr, DecidableEq
+
+/-- class of an answer: a certificate, a refusal that blames the request (HTTP 4xx, ACME problem
+    with a 4xx status, SCEP pkiStatus FAILURE), or a server error (HTTP 5xx) -/
+inductive FrontAns where
+  | issued | clientError | serverError
+  deriving Repr, DecidableEq
+
+/-- as coded. `api.Sign/Renew/Rekey` render the authority's `errs.Error` with its status (403 for
+    a ConstraintError, 500 for the plain rfc822Name error); SCEP answers every failure of
+    `SignCSR` with a CertRep of pkiStatus FAILURE; ACME `Order.Finalize` answers a signing error
+    with status 403 as `rejectedIdentifier` (400) since `fix:` 89421a7, any other as
+    `serverInternal` (500). -/
+def frontAnswer : Front → Verdict → FrontAns
+  | _, .allow => .issued
+  | .scep, _ => .clientError
+  | _, .deny _ _ => .clientError
+  | _, _ => .serverError
+
+/-- historic: before 89421a7 ACME wrapped every signing error into `serverInternal` -/
+def frontAnswerOld : Front → Verdict → FrontAns
+  | _, .allow => .issued
+  | .scep, _ => .clientError
+  | .acme, _ => .serverError
+  | _, .deny _ _ => .clientError
+  | _, _ => .serverError
+
+/-- what C05 demands of a front end: a certificate iff the names are allowed, and a refusal for
+    name constraints (`deny`) is a client error; for the other refusals (unparsable rfc822Name:
+    500 at the authority) the property does not fix the class, the code's own is expected -/
+def frontDemand (f : Front) : Verdict → FrontAns
+  | .allow => .issued
+  | .deny _ _ => .clientError
+  | v => frontAnswer f v
 
 /-! ### where the engine is consulted (source-derived, stage `paths`)
 
@@ -463,7 +517,7 @@ def templatePaths : List (String × List TStep) :=
   [ ("GetTLSCertificate", [.define, .assign "NotBefore", .assign "NotAfter", .assign "DNSNames",
       .assign "IPAddresses", .assign "EmailAddresses", .assign "URIs", .check false, .cas false]),
     ("renewContext", [.define, .assign "PublicKey", .assign "PublicKey", .assign "SubjectKeyId",
-      .assign "ExtraExtensions", .check false, .cas true]),
+      .assign "ExtraExtensions", .assign "SubjectKeyId", .check false, .cas true]),
     ("signX509", [.define, .call "Modify", .call "Modify", .call "Valid", .call "Enforce", .call "Enforce",
       .check true, .call "callAuthorizingWebhooksX509", .cas false]) ]
 
